@@ -117,7 +117,9 @@ def plan_c01(ctx):
 def fault_stages(ctx):
     c = consts_for({"fault", "sym", "entry", "parent"}, SweepOps={"loadfault"}, SweepMode=True)
     r = run_tlc_config("Proto_fault", emit=True, consts=c, action_constraints=["Sweep"])
-    stages.stage_graph(ctx, "Proto_fault", consts=c, result=r)
+    G = stages.stage_graph(ctx, "Proto_fault", consts=c, result=r)
+    if G is not None:
+        ctx.distinct += sum(1 for o in G.out for e in o if e[0].get("name") == "loadfault")   # distinct (state, fault)
     drain_pending(ctx, "structural faults")
 
 
@@ -221,7 +223,11 @@ def byte_faults(ctx):
             ctx.violations.append({"kind": "valid-file-rejected", "props": ["C17"], "op": {"name": fname},
                                    "expected": "accepted", "observed": out[1:], "history": [], "signature": "valid-rejected"})
             continue
+        seen = set()
         for label, bad in faults.corruptions(data, rng, budget if fname != "hello.gtirb" else 3000):
+            if bad != data and bad not in seen:
+                seen.add(bad)
+                ctx.distinct += 1          # a distinct byte string that differs from the valid file
             o = faults.load_guarded(g, bad)
             recs.append(faults.outcome_record(g, bad, PROTOBUF_VERSION, o))
             labels.append((fname, label, o[0] if o[0] != "exc" else "exc:" + o[1]))
@@ -257,7 +263,8 @@ def plan_c17(ctx):
                                  "IR: one dangling / ill-typed reference per reference site, duplicated UUIDs, unknown enum "
                                  "number, wrong-length UUID, header and version variations; (b) byte-level corruptions of "
                                  "saved files; each outcome (exception class or the returned IR walked through the public "
-                                 "API) is judged by TLC (CoherentJudge.tla); distinct = distinct (file, fault)")
+                                 "API) is judged by TLC (CoherentJudge.tla); distinct_nontrivial counts distinct (IR state, structural "
+                                 "fault) pairs plus distinct corrupted byte strings that differ from the valid file")
 
 
 DEQ_OPS = {"scal", "tag.add", "tag.del", "attr.addr", "attr.isize", "attr.off", "attr.bsize", "attr.bytes",
